@@ -282,7 +282,7 @@ func (g *gen) shadowBlock(d int) {
 }
 
 func (g *gen) switchStmt(d int) {
-	kind := g.weighted([]int{4, 3, 3, 2}, "swkind")
+	kind := g.weighted([]int{4, 3, 3, 2, 2}, "swkind")
 	var head string
 	var caseExpr func(i int) string
 	g.push()
@@ -321,6 +321,21 @@ func (g *gen) switchStmt(d int) {
 			head = " "
 		}
 		caseExpr = func(i int) string { return g.boolOp(g.ed()) }
+	case 4:
+		// constant cases over a tag whose evaluation creates blocks (short-circuit operators)
+		g.feat("switch-bool-const")
+		op := pickOf(g, []string{"&&", "||"}, "logop")
+		if init != "" {
+			head = "(" + g.initName(init) + " " + pickOf(g, cmpOps, "cmp") + " " + g.expr(tInt, 1) + " " + op + " " + g.boolOp(g.ed()) + ")"
+		} else {
+			head = "(" + g.nc(tBool, g.ed()) + " " + op + " " + g.boolOp(g.ed()) + ")"
+		}
+		vals := []string{"true", "false"}
+		if g.chance(50, "boolorder") {
+			vals[0], vals[1] = vals[1], vals[0]
+		}
+		nclauses = g.rng(1, 2, "nboolclauses")
+		caseExpr = func(i int) string { return vals[i%2] }
 	default:
 		g.feat("switch-string")
 		head = g.nc(tString, 1)
